@@ -48,6 +48,8 @@ fn main() {
             "keepcommit" => replay_one(&suites::commit::Keep, &v["input"], &mut model),
             "freshness" => replay_one(&suites::sanity::Fresh, &v["input"], &mut model),
             "striplookup" => replay_one(&suites::striplookup::suite(), &v["input"], &mut model),
+            "dataheader" => replay_one(&suites::shorthash::dataheader_suite(), &v["input"], &mut model),
+            "shorthash" => replay_one(&suites::shorthash::shorthash_suite(), &v["input"], &mut model),
             "topn" => replay_one(&suites::analyze::topn_suite(), &v["input"], &mut model),
             "normdetect" => replay_one(&suites::analyze::normalize_suite(), &v["input"], &mut model),
             "unpushed" => replay_one(&suites::sanity::Unpushed, &v["input"], &mut model),
@@ -77,6 +79,7 @@ fn main() {
             "sanity" => suites::sanity::run(&tier, seed, &mut model),
             "analyze" => suites::analyze::run_analyze(&tier, seed, &mut model),
             "striplookup" => suites::striplookup::run(&tier, seed, &mut model),
+            "shorthash" => suites::shorthash::run(&tier, seed, &mut model),
             "detect" => suites::analyze::run_detect(&tier, seed, &mut model),
             "commit" => vec![suites::commit::run_keep(&tier, seed, &mut model), suites::commit::run_parents(&tier, seed, &mut model), suites::commit::run_misc(&tier, seed, &mut model)],
             other => {
